@@ -666,6 +666,23 @@ func (e *SpecEnv) callExpr(n *Node) *SVal {
 			return boolVal("(forall ((" + bv + " Str)) " + b + ")")
 		}
 		return boolVal("(exists ((" + bv + " Str)) " + b + ")")
+	case "forallkey", "existskey":
+		// quantification over the key type of a map: forallkey(k, m, body)
+		if len(args) != 3 || args[0].Op != "id" {
+			sfail("%s(k, map, body)", name)
+		}
+		mv := e.force(e.eval(args[1]))
+		mt, ok := mv.T.Underlying().(*types.Map)
+		if !ok {
+			sfail("%s: second argument must be a map", name)
+		}
+		x.nFrames++
+		bv := sym(fmt.Sprintf("%s!q%d", args[0].Name, x.nFrames))
+		b := fr.evalBool(args[2], e.with(args[0].Name, leaf(mt.Key(), bv)))
+		if name == "forallkey" {
+			return boolVal("(forall ((" + bv + " " + sortOf(mt.Key()) + ")) " + b + ")")
+		}
+		return boolVal("(exists ((" + bv + " " + sortOf(mt.Key()) + ")) " + b + ")")
 	case "sum":
 		return e.sum(args)
 	case "min", "max":
@@ -735,6 +752,16 @@ func (e *SpecEnv) callExpr(n *Node) *SVal {
 		s2 := e.sum([]*Node{args[0], args[1], args[2], args[4]})
 		pw := e.quant("forall", []*Node{args[0], args[1], args[2], {Op: "==", Args: []*Node{args[3], args[4]}}})
 		return boolVal(sImp(pw.Term, sEq(s1.Term, s2.Term)))
+	case "called":
+		// called(Name): a call to a function or method called Name has been executed earlier
+		// in this function (ghost state maintained by the generator for contracts with guards)
+		need(1)
+		if args[0].Op != "id" {
+			sfail("called(FunctionName)")
+		}
+		nm := "$called:" + args[0].Name
+		x.em.Assert(sNot(x.em.Const(nm+"@0", "Bool")))
+		return boolVal(x.heapGet(e.heap, nm, "Bool"))
 	case "nth":
 		// nth(tuple, i): component of a multi-result value
 		need(2)
